@@ -19,6 +19,7 @@ type Link struct {
 	UUID, TptUUID uint64
 	Local, Remote peer.ID
 	Closes        atomic.Int64
+	Opens         atomic.Int64 // OpenStream calls: lets a driver find out which link object a mounted link wraps
 	once          sync.Once
 	done          chan struct{}
 	Incoming      chan stream.Stream
@@ -36,6 +37,7 @@ func (l *Link) GetRemoteTransportUUID() uint64 { return 0 }
 func (l *Link) GetRemotePeer() peer.ID         { return l.Remote }
 func (l *Link) GetLocalPeer() peer.ID          { return l.Local }
 func (l *Link) OpenStream(opts stream.OpenOpts) (stream.Stream, error) {
+	l.Opens.Add(1)
 	if l.OpenFn != nil {
 		return l.OpenFn()
 	}
